@@ -21,7 +21,7 @@ from ..rngseam import Scripted, r_for_geometric, set_global_state
 from ..snap import integrity, snapshot
 from . import common
 
-EXTRA_OPS = {"generate", "decoders", "coverage"}
+EXTRA_OPS = {"generate", "decoders", "coverage", "decoders_large"}
 EXPECTED_PROBES = ["skip_sampling_landed_on_last_index", "skip_sampling_landed_on_index_0",
                    "skip_sampling_one_past_last_index", "probability_one", "probability_zero"]
 PROBS = [0.0, 1e-9, 0.3, 0.3, 0.7, 1.0 - 1e-9, 1.0]
@@ -46,6 +46,9 @@ def next_record(sim):
     r = g.r
     if r.random() < 0.05:
         return {"uid": g.next_uid(), "op": "decoders", "n": r.randint(1, 9), "m": r.randint(1, 4)}
+    if r.random() < 0.04:
+        n = r.randint(10, 60)
+        return {"uid": g.next_uid(), "op": "decoders_large", "n": n, "m": r.randint(2, min(n - 1, 20))}
     if r.random() < 0.04:
         m = r.choice([2, 3])
         return {"uid": g.next_uid(), "op": "coverage", "which": r.choice(COVER_FNS), "n": r.randint(m, 6), "m": m,
@@ -82,7 +85,30 @@ def sparse_large_params(r, fn):
     return None
 
 
-def gen_params(r, fn):
+def huge_params(r, fn):
+    """the generators that enumerate *every* candidate: parameters whose candidate count at some
+    order lies on either side of 10**5 / 10**6 / 10**7 (size thresholds at which an implementation
+    may switch strategy; 10**4 too), with probabilities so small that only a handful of edges result.  The
+    largest cost about 1.5 s of CPU per call on the pinned tree."""
+    import math
+    k = r.choice([2, 3, 4])  # members of the largest candidates
+    target = r.choice([1.2e4, 1.2e5, 1.2e6, 1.05e7])
+    n = k
+    while math.comb(n, k) <= target:
+        n += 1
+    ps = [r.choice([0.0, 1.0, 2.0]) / math.comb(n, j) for j in range(2, k + 1)]
+    if fn == "random_simplicial_complex":
+        return {"N": n, "ps": ps}
+    if fn == "random_hypergraph":
+        if r.random() < 0.5:
+            return {"n": n, "ps": [ps[-1]], "order": [k - 1]}
+        return {"n": n, "ps": ps}
+    return None
+
+
+def gen_params(r, fn, huge_rate=0.02):
+    if fn in ("random_simplicial_complex", "random_hypergraph") and r.random() < huge_rate:
+        return huge_params(r, fn)
     if fn in ("fast_random_hypergraph", "uniform_erdos_renyi_hypergraph", "uniform_HPPM") and r.random() < 0.12:
         return sparse_large_params(r, fn)
     n = r.randint(1, 9)
@@ -560,7 +586,52 @@ def do_decoders(sim, rec):
     return None
 
 
+def do_decoders_large(sim, rec):
+    """beyond the exhaustive range (n up to 60, m up to 20): decoded combinations must be valid
+    (m distinct nodes of range(n)) and distinct for distinct indices; the probed indices sit at the
+    ends, around the boundaries where the first element changes, and at random places.  (The
+    boundaries only choose where to look; no particular enumeration order is assumed.)"""
+    w = sim.world
+    n, m = rec["n"], rec["m"]
+    from xgi.generators import uniform as U
+    r = random.Random(rec["uid"] * 31 + n)
+    N = math.comb(n, m)
+    idx = {0, 1, N - 1, N - 2}
+    acc = 0
+    for first in range(0, n - m + 1):
+        acc += math.comb(n - 1 - first, m - 1)
+        for d in (-2, -1, 0, 1):
+            idx.add(acc + d)
+    for _ in range(24):
+        x = r.randrange(N)
+        idx.update((x, x + 1))
+    idx = sorted(i for i in idx if 0 <= i < N)
+    fake = dict(rec, op="decoders_large")
+    w.stats["op:decoders_large"] += 1
+    seen = {}
+    with warnings.catch_warnings():
+        warnings.simplefilter("ignore")
+        try:
+            for i in idx:
+                c = tuple(U._index_to_edge_comb(i, n, m))
+                if len(set(c)) != m or any((not isinstance(x, (int, np.integer))) or x < 0 or x >= n for x in c):
+                    w.find({"C16"}, "index_to_edge_comb_invalid", fake, "dec", f"n={n} m={m} index={i}: {c!r}")
+                    return None
+                key = tuple(sorted(int(x) for x in c))
+                if key in seen:
+                    w.find({"C16"}, "index_to_edge_comb_not_a_bijection", fake, "dec",
+                           f"n={n} m={m}: indices {seen[key]} and {i} decode to the same combination {key!r}")
+                    return None
+                seen[key] = i
+        except Exception as ex:  # noqa
+            w.find({"C16"}, "decoder_raised", fake, "dec", f"n={n} m={m}: {type(ex).__name__}: {ex}")
+    w.logev("decoders_large", rec["uid"], n, m, len(idx))
+    return None
+
+
 def exec_extra(sim, rec):
+    if rec["op"] == "decoders_large":
+        return do_decoders_large(sim, rec)
     if rec["op"] == "decoders":
         return do_decoders(sim, rec)
     if rec["op"] == "coverage":
